@@ -23,6 +23,7 @@ pub enum Step {
     Set(usize, String, Value),
     CSet(usize, String, Value),
     PSubscribe(usize, String),
+    SubscribeLs(usize, Option<String>),
     SPubInit(usize, String),
     Lock(usize, String),
     Acquire(usize, String),
@@ -38,6 +39,7 @@ impl Step {
             Step::Set(c, k, v) => format!("c{c} set {k} = {v}"),
             Step::CSet(c, k, v) => format!("c{c} cset {k} = {v} (current version)"),
             Step::PSubscribe(c, p) => format!("c{c} psubscribe {p}"),
+            Step::SubscribeLs(c, p) => format!("c{c} subscribe-ls {p:?}"),
             Step::SPubInit(c, k) => format!("c{c} spub-init {k}"),
             Step::Lock(c, k) => format!("c{c} lock {k}"),
             Step::Acquire(c, k) => format!("c{c} acquire-lock {k}"),
@@ -52,6 +54,7 @@ struct Client {
     grave_goods: Option<Value>,
     last_will: Option<Value>,
     subs: Vec<(u64, String, Receiver<PStateEvent>)>,
+    ls_subs: Vec<(u64, Receiver<Vec<String>>)>,
     spubs: Vec<u64>,
     acquires: Vec<(u64, oneshot::Receiver<()>, bool)>,
 }
@@ -189,6 +192,17 @@ pub async fn run_history(steps: &[Step], ext: bool, quirks: &Quirks, obs: &mut O
                     Err(code) => return Some(format!("{what}: rejected with error code {code}")),
                 }
             }
+            Step::SubscribeLs(c, parent) => {
+                let cl = clients.entry(*c).or_default();
+                if !cl.connected {
+                    continue;
+                }
+                tid += 1;
+                match res(wb.subscribe_ls(client_id(*c), tid, parent.clone()).await) {
+                    Ok((rx, _)) => cl.ls_subs.push((tid, rx)),
+                    Err(code) => return Some(format!("{what}: rejected with error code {code}")),
+                }
+            }
             Step::SPubInit(c, k) => {
                 let cl = clients.entry(*c).or_default();
                 if !cl.connected {
@@ -229,7 +243,7 @@ pub async fn run_history(steps: &[Step], ext: bool, quirks: &Quirks, obs: &mut O
                 while observer.try_recv().is_ok() {}
                 let others: Vec<usize> = clients.iter().filter(|(o, cl)| *o != c && cl.connected).map(|(o, _)| *o).collect();
                 let other_subtrees: Vec<Vec<(String, Value)>> = others.iter().map(|o| subtree(&wb, *o)).collect();
-                let (subs_before, _) = wb.verif_subscription_count();
+                let (subs_before, ls_subs_before) = wb.verif_subscription_count();
                 let streams_before = wb.verif_pub_stream_clients();
                 let ended = clients.remove(c).unwrap_or_default();
                 let name = client_name(*c);
@@ -326,7 +340,23 @@ pub async fn run_history(steps: &[Step], ext: bool, quirks: &Quirks, obs: &mut O
                         return Some(format!("{what}: $SYS entries of another client (c{o}) changed from {before:?} to {after:?}"));
                     }
                 }
-                let (subs_after, _) = wb.verif_subscription_count();
+                let (subs_after, ls_subs_after) = wb.verif_subscription_count();
+                if ls_subs_before as i64 - ls_subs_after as i64 != ended.ls_subs.len() as i64 {
+                    return Some(format!(
+                        "{what}: {ls_subs_before} ls-subscriptions before, {ls_subs_after} after, the session had {}: its ls-subscriptions were not removed",
+                        ended.ls_subs.len()
+                    ));
+                }
+                for (t, mut rx) in ended.ls_subs {
+                    loop {
+                        match rx.try_recv() {
+                            Ok(_) => continue,
+                            Err(tokio::sync::mpsc::error::TryRecvError::Disconnected) => break,
+                            Err(_) => return Some(format!("{what}: ls-subscription {t} of the ended session is still open")),
+                        }
+                    }
+                }
+                obs.subscriptions_dropped_at_end += (ls_subs_before - ls_subs_after) as u64;
                 if subs_before as i64 - subs_after as i64 != ended.subs.len() as i64 {
                     return Some(format!("{what}: {} subscriptions before, {} after, the session had {}", subs_before, subs_after, ended.subs.len()));
                 }
@@ -526,7 +556,13 @@ pub fn random_history(rng: &mut Rng) -> (Vec<Step>, usize) {
             10..=15 => Step::Set(c, (*rng.pick(KEYS)).to_owned(), json!(format!("v{uid}"))),
             16..=18 => Step::CSet(c, (*rng.pick(KEYS)).to_owned(), json!(format!("cas{uid}"))),
             19..=20 => Step::PSubscribe(c, (*rng.pick(&["#", "a/#", "a/?", "shared/#", "probe/#", "b"])).to_owned()),
-            21 => Step::SPubInit(c, (*rng.pick(KEYS)).to_owned()),
+            21 => {
+                if rng.chance(1, 2) {
+                    Step::SPubInit(c, (*rng.pick(KEYS)).to_owned())
+                } else {
+                    Step::SubscribeLs(c, rng.pick(&[None, Some("a"), Some("a/b"), Some("shared"), Some("nothing/here")]).map(str::to_owned))
+                }
+            }
             22..=23 => Step::Lock(c, (*rng.pick(&KEYS[..3])).to_owned()),
             24..=25 => Step::Acquire(c, (*rng.pick(&KEYS[..3])).to_owned()),
             26..=27 => Step::Disconnect(c),
